@@ -42,6 +42,9 @@ static void progress_cb(unsigned int block, unsigned int total, void *user)
 int main(void)
 {
 	char *line = NULL; size_t cap = 0; ssize_t n;
+	/* one output line per case, flushed at once: when a sanitizer stops the process inside case k, exactly the k
+	   lines before it have been written and the caller attributes the crash to the right case */
+	setvbuf(stdout, NULL, _IOLBF, 0);
 	while ((n = getline(&line, &cap, stdin)) > 0) {
 		char *cmd = strtok(line, " \n"), *meth = strtok(NULL, " \n"), *hx = strtok(NULL, " \n");
 		char *chunks = strtok(NULL, " \n"), *dl = strtok(NULL, " \n"), *reads = strtok(NULL, " \n");
